@@ -16,7 +16,15 @@ class BudgetExceeded(BaseException):
         self.frames = frames
 
 
+_armed = [False]
+
+
 def _handler(signum, frame):
+    if not _armed[0]:
+        # a timer signal that was already on its way when the guarded call
+        # finished: ignore it (it must never fire outside the guarded region)
+        return
+    _armed[0] = False
     frames = []
     f = frame
     while f is not None and len(frames) < 12:
@@ -34,11 +42,13 @@ def run(fn, seconds):
     if not _installed:
         signal.signal(signal.SIGVTALRM, _handler)
         _installed = True
+    _armed[0] = True
     signal.setitimer(signal.ITIMER_VIRTUAL, seconds)
     try:
         try:
             return fn(), None
         finally:
+            _armed[0] = False
             signal.setitimer(signal.ITIMER_VIRTUAL, 0)
     except BudgetExceeded as exc:
         return None, exc
